@@ -61,6 +61,17 @@ type FuncSpec struct {
 	usesLocked int
 	NilRecv   bool     // the receiver may be nil (no implicit non-nil assumption)
 	Spawns    []string // parameters holding functions that run later: their precondition is checked at the call
+	AtCalls   []*AtCall // assertions over the caller's locals right before a call
+	Preserves []*Clause // with `modifies heap`: whole storages that are nevertheless left alone
+}
+
+// AtCall is `atcall <callee> assert <clause>`: an assertion checked in the
+// state right before every call of a function or method whose name ends with
+// Callee, with the caller's source-level locals in scope.
+type AtCall struct {
+	Callee string
+	Clause *Clause
+	Assume bool
 }
 
 // GhostSet is a ghost assignment executed at every return of the function
@@ -80,6 +91,7 @@ type LetSpec struct {
 }
 
 type PredSpec struct {
+	Triggered bool // fpred: a named function of the storages it reads, with a definitional axiom (usable as a trigger)
 	Name    string
 	Params  []Binder
 	Body    *SExpr
@@ -172,7 +184,7 @@ func newSpecDB() *SpecDB {
 }
 
 var topKeywords = map[string]bool{
-	"pred": true, "fun": true, "ghost": true, "lock": true, "func": true, "interface": true,
+	"pred": true, "fpred": true, "fun": true, "ghost": true, "lock": true, "func": true, "interface": true,
 	"lemma": true, "pure": true, "axiom": true, "import": true, "ext": true, "opaque": true, "field": true,
 	"nonnil-globals": true, "immutable": true,
 }
@@ -180,7 +192,7 @@ var topKeywords = map[string]bool{
 var subKeywords = map[string]bool{
 	"requires": true, "ensures": true, "modifies": true, "loop": true, "protects": true,
 	"invariant": true, "assume": true, "inline": true, "maypanic": true, "nosafety": true,
-	"params": true, "results": true, "let": true, "letold": true, "forall": true, "note": true, "property": true,
+	"atcall": true, "preserves": true, "params": true, "results": true, "let": true, "letold": true, "forall": true, "note": true, "property": true,
 	"selfcomp": true, "held": true, "transparent": true, "ghostset": true, "spawns": true, "nilrecv": true, "rely": true,
 }
 
@@ -392,7 +404,7 @@ func (db *SpecDB) loadSpecFile(path, pkgPath string, assumed bool) error {
 			}
 			j := strings.LastIndex(f[0], ".")
 			db.FieldCalls[expandTypeKey(f[0][:j], pkgPath, imports)+"."+f[0][j+1:]] = expandFuncKey(f[2], pkgPath, imports) + "\x00" + f[4]
-		case "pred":
+		case "pred", "fpred":
 			reset()
 			// pred Name(params) = body
 			j := strings.Index(d.text, "(")
@@ -413,7 +425,7 @@ func (db *SpecDB) loadSpecFile(path, pkgPath string, assumed bool) error {
 				return fmt.Errorf("%s: %v", where, err)
 			}
 			name := strings.TrimSpace(d.text[:j])
-			db.Preds[name] = &PredSpec{Name: name, Params: bs, Body: body, Pkg: pkgPath, Imports: imports, File: path, Line: d.line}
+			db.Preds[name] = &PredSpec{Name: name, Params: bs, Body: body, Pkg: pkgPath, Imports: imports, File: path, Line: d.line, Triggered: d.kw == "fpred"}
 		case "fun":
 			reset()
 			j := strings.Index(d.text, "(")
@@ -660,6 +672,30 @@ func parseFuncSub(fs *FuncSpec, d rawDirective, path string) error {
 		}
 	case "held":
 		fs.LockHeld = append(fs.LockHeld, strings.TrimSpace(d.text))
+	case "atcall":
+		f := strings.Fields(d.text)
+		if len(f) < 3 || (f[1] != "assert" && f[1] != "assume") {
+			return fmt.Errorf("%s: atcall <callee> assert|assume <clause>", where)
+		}
+		rest := strings.TrimSpace(strings.TrimPrefix(strings.TrimSpace(d.text), f[0]))
+		rest = strings.TrimSpace(strings.TrimPrefix(rest, f[1]))
+		cl, err := parseClause(rest, path, d.line)
+		if err != nil {
+			return err
+		}
+		fs.AtCalls = append(fs.AtCalls, &AtCall{Callee: f[0], Clause: cl, Assume: f[1] == "assume"})
+	case "preserves":
+		for _, p := range splitTopLevel(d.text, ',') {
+			p = strings.TrimSpace(p)
+			if p == "" {
+				continue
+			}
+			cl, err := parseClause(p, path, d.line)
+			if err != nil {
+				return err
+			}
+			fs.Preserves = append(fs.Preserves, cl)
+		}
 	case "nilrecv":
 		fs.NilRecv = true
 	case "rely":
